@@ -401,6 +401,16 @@ def run(chk):
             me = model.call({"cmd": "eval_expr", "text": T(body), "env": env, "size": size})
             if me.get("bytes") != expect:
                 chk.tie_break("correspondence:eval", "model evaluates %r to %s, implementation/spec %s" % (body, me, expect), {"text": text})
+    # ---- expressions outside the documented operators' domain must be an ERROR, never a statement that silently assembles to nothing
+    for text in ['.dword 1 + "a"', '.dword "a" + 1', '.byte (1 == 1) + "!"', '.dword "a" * 2', '.byte "a" - "a"', '.word c1 + greeting',
+                 '.byte greeting < joined']:
+        prog = ".byte 7\n" + text + "\n.byte 9\n" + pre
+        r = probe.call({"cmd": "asm", "files": {"main.asm": prog}, "merge": False, "pc": PC0})
+        dist["strings"] += 1
+        chk.count(1, 1)
+        if r.get("ok") or "panic" in r:
+            chk.oracle_failure(None, "`%s` is not a meaningful expression, yet the program assembles without a diagnostic to %s" % (
+                text, hexbytes(r) if r.get("ok") else r.get("panic")), {"program": prog, "impl": hexbytes(r) if r.get("ok") else r.get("panic"), "spec": "rejected"})
     probe.stop()
     model.stop()
     chk.cov["rule"] = ("seeded random expression trees (depth <= 5) over literals in three radixes with leading zeros and true/false, constants "
